@@ -732,3 +732,60 @@ def id_test_unit():
 
 ii_ = Int('ii_')
 UNITS += [id_test_unit()]
+
+
+# ================================================================================================ WBS.__init__ (without initial tasks)
+def wbs_init_unit():
+    """WBS(): a new hidden root (reserved id) that the new WBS owns.  Domain: no `tasks` argument (with it: clones are attached through the children setter - bounded)"""
+    def build():
+        hc = lambda c: H(c.eng, c.st); h0 = lambda c: H(c.eng, c.pre)
+
+        def blank_wbs(h, w):
+            return And(w != W.null, ForAll([t_], h.own[t_] != w, patterns=[h.own[t_]]))
+
+        def c_new_task(eng, st, recv, args, kws, node):
+            """Task(EMPTY_TASK_ID, **kwargs): the constructor on a blank object (proved for public ids by task_init_unit; for the reserved id the same body runs - the
+            only difference is that the invariant clause DR is not re-established until the WBS has adopted the object): id set, three new empty list objects, nothing else touched"""
+            h = H(eng, st); r = fresh('newtask', T)
+            st.assume(blank(h, r))
+            eng.write(st, 'Task._Task__id', Store(h.tid, r, args[0].e))
+            for fld in ('_Task__children', '_Task__predecessors', '_Task__successors'):
+                lo = fresh('newlist', LR); st.assume(lo != LR.null)
+                for f2 in ('_Task__children', '_Task__predecessors', '_Task__successors'):
+                    arr = eng.field(st, 'Task', f2); st.assume(ForAll([t_], arr[t_] != lo, patterns=[arr[t_]]))
+                eng.write(st, 'PyList.elems', Store(eng.field(st, 'PyList', 'elems'), lo, empty))
+                eng.write(st, 'Task.' + fld, Store(eng.field(st, 'Task', fld), r, lo))
+            return [(st, V(r, T))]
+
+        def c_attach_new(eng, st, recv, args, kws, node):
+            h = H(eng, st); me = recv.e
+            for lab, g in (('task-non-null', me != null), ('C01/F4-no-task-is-its-own-ancestor', Acyc(h.par)), ('N-null-has-no-parent', h.par[null] == null), ('C01/F1-below-the-task', F1below(h, me)),
+                           ('C01/F2-below-the-task', F2below(h, me)), ('C01/F3-no-child-listed-twice', Inv(h)['C01/F3-no-child-listed-twice']),
+                           ('children-list-objects-exist', ForAll([t_], Implies(t_ != null, h.chl[t_] != LR.null), patterns=[h.chl[t_]]))):
+                st.oblige(f'req@_attach/{lab}', g, f'@{node.lineno}')
+            Wn = args[0].e
+            eng.write(st, 'Task._Task__wbs', Lambda([x], If(And(Wn != W.null, insub(h.par, me, x)), Wn, h.own[x])))
+            return [(st, V(None, NONE))]
+
+        class WPlugin(ChildrenPlugin):
+            def truth(self_, eng, st, v):
+                if v.s == LT: return ln(v.e) > 0
+                return NotImplemented
+
+            def ev_ListComp(self_, eng, e, st):
+                if ast.unparse(e).replace(' ', '') == '[v.clone()forvintasks]':
+                    st.oblige('domain/no-initial-tasks-so-the-cloning-branch-is-not-reached', BoolVal(False), f'@{e.lineno}')
+                    return []          # proved unreachable: the path ends here
+                return ChildrenPlugin.ev_ListComp(self_, eng, e, st)
+        fc = {'sig': {'self': W, 'tasks': LT, 'kwargs': KWD}, 'globals': {'EMPTY_TASK_ID': V(EMPTY, INT)},
+              'requires': [(l_, (lambda l_: lambda c: Inv(hc(c), whole=c['self'])[l_])(l_)) for l_ in LABS] +
+                          [('the-WBS-under-construction-owns-nothing-yet', lambda c: blank_wbs(hc(c), c['self'])), ('no-initial-tasks (domain of this proof)', lambda c: ln(c['tasks']) == 0)],
+              'ensures': [(l_, (lambda l_: lambda c: Inv(hc(c))[l_])(l_)) for l_ in LABS] +
+                         [('C11/the-new-WBS-has-a-hidden-root-and-no-tasks', lambda c: And(hc(c).root[c['self']] != null, hc(c).tid[hc(c).root[c['self']]] == EMPTY, hc(c).ch(hc(c).root[c['self']]) == empty,
+                                                                                          hc(c).own[hc(c).root[c['self']]] == c['self'])),
+                          ('C16/existing-tasks-untouched', lambda c: And(hc(c).par == h0(c).par, ForAll([x], Implies(x != hc(c).root[c['self']], And(hc(c).own[x] == h0(c).own[x], hc(c).tid[x] == h0(c).tid[x]))),
+                                                                       ForAll([w_], Implies(w_ != c['self'], hc(c).root[w_] == h0(c).root[w_]))))]}
+        contracts = {'fn:Task': c_new_task, 'Task._attach': c_attach_new}
+        return Engine('pjplan/wbs.py', 'WBS.__init__', contracts, TASK_CLASSES, fc, plugins=[WPlugin()]), LIST_AX + GRAPH_AX + KID_AX + ROOT_AX
+    return Unit('WBS.__init__', 'pjplan/wbs.py', build, ['C01', 'C05', 'C11'], timeout_ms=15000)
+UNITS += [wbs_init_unit()]
